@@ -36,6 +36,7 @@ def gen_case(rng, tier, i):
     big = tier == 'thorough' and rng.random() < 0.3
     script = cgen.gen_script(rng, max_gates=40 if big else rng.choice([6, 12, 24]), max_in=6, max_ff=3,
                             p_glitchy=rng.choice([0.1, 0.3]))
+    if rng.random() < 0.03: script = {'net': 'b01'}      # shipped netlist (92 nodes, 5 flip-flops, wide levels)
     sims = rng.randint(1, 6)
     case = {
         'script': script,
@@ -54,7 +55,7 @@ def gen_case(rng, tier, i):
                      'rowperm': {'kind': 'random', 'seed': rng.randrange(1 << 20)}})
     if rng.random() < 0.5:
         cfgs.append({'cls': 'gpu', 'sched': {'mode': 'repo'}, 'block': wavegen.gen_block(rng)})
-    if rng.random() < 0.15 and sims <= 3 and len(script['gates']) <= 14:
+    if rng.random() < 0.15 and sims <= 3 and len(script.get('gates', [0] * 99)) <= 14:
         cfgs.append({'cls': 'gpu', 'sched': wavegen.gen_interleave_sched(rng), 'block': wavegen.gen_block(rng, small=True)})
     case['cfgs'] = cfgs
     case['logic'] = {'m': rng.choice([2, 4, 8]), 'sims': rng.choice([1, 5, 8, 13]), 'vals': [rng.randrange(8) for _ in range(rng.randint(3, 23))],
